@@ -21,7 +21,7 @@ fn strip_refs(slots: &Sx) -> Sx {
           let mut e = e.clone();
           let tag = match e.first() { Some(Sx::A(t)) => *t, _ => 99 };
           match tag {
-            0 | 1 | 7 => { if e.len() > 2 { e[2] = Sx::L(vec![]); } }
+            0 | 1 | 7 | 8 => { if e.len() > 2 { e[2] = Sx::L(vec![]); } }
             4 => { if e.len() > 3 { e[3] = Sx::L(vec![]); } }
             5 | 6 => { if e.len() > 2 { e[2] = Sx::A(0); } }
             _ => {}
@@ -55,6 +55,7 @@ fn real_reload(c: &BuiltCase, graph: &mut ModuleGraph, specs: &[String]) -> Vec<
   loader.max_redirects = c.max_redirects;
   let specs_u: Vec<ModuleSpecifier> = specs.iter().map(|r| ModuleSpecifier::parse(r).unwrap()).collect();
   let exec = InlineExecutor;
+  let npm = c.world.npm.as_ref().map(|a| crate::world::WorldNpm { answers: a, log: &loader.log });
   let options = BuildOptions {
     is_dynamic: c.bcfg.is_dynamic,
     skip_dynamic_deps: c.bcfg.skip_dynamic_deps,
@@ -62,6 +63,7 @@ fn real_reload(c: &BuiltCase, graph: &mut ModuleGraph, specs: &[String]) -> Vec<
     unstable_text_imports: c.unstable.1,
     unstable_css_imports: c.unstable.2,
     passthrough_jsr_specifiers: c.world.passthrough_jsr,
+    npm_resolver: npm.as_ref().map(|r| r as &dyn deno_graph::source::NpmResolver),
     executor: &exec,
     ..Default::default()
   };
